@@ -54,3 +54,12 @@ claim("C04", "E2-enumerate + E1-bfs", "exhaustive accessor grid (sizes x endians
       "Grid: every typed, byte-range and annotation accessor at every address in 0..=size+2 and around 2^31, 2^32, isize::MAX and usize::MAX, lengths up to usize::MAX, all 256/65 536 values and NaN payloads, sizes 0..=9, both endiannesses, judged by u128 range arithmetic and an endian encode/decode oracle (≈10M cases per build). Cursor semantics: BFS to depth 4/5 over (archive, reader cursor, writer cursor) with every stream operation, seek/skip and interleaved positional calls compared against the positional model.",
       "Trusted: the range/endianness oracle in c04.rs. Zero-length accesses and label accessors on the last three addresses are outside the statement (no-panic only).",
       "DESIGN.md §4 C04")
+
+claim("C06", "E2-enumerate", "bounded-exhaustive enumeration of archives (titles x key lists x messages), all message strings over a 10-symbol alphabet, and a complete single-character sweep of the encoding domain",
+      "4 format/endian configs x 6 titles x all ordered lists of ≤3 distinct keys x message assignments; ALL strings of ≤5 (6 thorough) symbols over an alphabet with BOM-like, astral, newline and backslash units as a middle message; every Unicode scalar / every Shift-JIS-lossless code point as c, xc, cx (≈3.6M archives quick). Each is serialized and read back by mila and by an independent image reader that checks record alignment, label=key, terminators and padding.",
+      "Trusted: ref_text.rs image reader, ref_bin.rs parser, encoding_rs as codec. Messages with a literal backslash-n cannot be stored through set_message and are skipped.",
+      "DESIGN.md §4 C06")
+claim("C07", "E1-bfs", "explicit-state BFS over the real TextArchive to the fixpoint with a lock-step reference map",
+      "The complete reachable state space (≈11k states, ≈385k transitions) of set_message/delete_message/set_title over 3 keys x 10 escape-heavy messages x 2 titles from a new and a parsed archive is explored; every transition is executed on a fresh real object and all observers (order, has/get, title, dirty flag, set-back-what-you-got, serialize→parse order/cleanliness) are compared with an insertion-ordered reference map.",
+      "Trusted: ref_text.rs escape/unescape model (from the statement). Key and message alphabets are small and fixed.",
+      "DESIGN.md §4 C07")
